@@ -15,9 +15,25 @@ META = {
 }
 ALLOWED_AXIOMS = ()
 
+C13_VOS = ddcommon.MODEL_VOS + ["DD/Build.vo", "DD/Apply.vo", "DD/SatCount.vo", "DD/Pick.vo"]
+
 
 def build(ctx):
-    return ddcommon.build_dd(ctx)
+    """C13 has its own driver: ocaml/c13_main.ml linked against the extraction of
+    coq/Extract/ExC13.v (the DD model + coq/DD/Pick.v); same harness (h_dd)."""
+    drv = vf.ocaml_build(ctx, "ExC13.v", "c13_main.ml", extra_ml=["dd_types.ml", "pick.ml"], model_vos=C13_VOS)
+    bins = vf.cargo_build(["h_dd"])
+    return bins["h_dd"], drv
+
+
+class _own_driver:
+    """ddcommon.run_dd / replay_dd with this package's driver"""
+    def __enter__(self):
+        self.orig = ddcommon.build_dd
+        ddcommon.build_dd = build
+
+    def __exit__(self, *a):
+        ddcommon.build_dd = self.orig
 
 
 def case_pick_all(cid, kind, order, nv=3):
@@ -84,7 +100,7 @@ def gen_cases(ctx):
     cases = []
     cid = 0
     for kind in ddgen.KINDS_BOOL:
-        orders = ddgen.PERMS3 if thorough else [rng.choice(ddgen.PERMS3)]
+        orders = ddgen.PERMS3 if thorough else [rng.choice(ddgen.PERMS3[1:])]
         for order in orders:
             cases.append(case_pick_all(f"p{cid}", kind, order)); cid += 1
             cases.append(case_pickset_all(f"s{cid}", kind, order)); cid += 1
@@ -96,11 +112,13 @@ def gen_cases(ctx):
 
 
 def run(ctx):
-    ddcommon.run_dd(
-        ctx, ["C13"], gen_cases(ctx),
-        rule="per kind (bdd, bcdd, zbdd): 256 three-variable functions x 8 choice vectors (pick_cube + pick_cube_dd) and x 27 literal sets (pick_cube_dd_set) under one seed-chosen order (quick) / all 6 (thorough); random functions, choice vectors and literal sets over 4..7 variables under random orders; uniform sampling with fixed seeds (20000 draws per function). non-trivial = case with >= 3 ops",
-        allowed_axioms=ALLOWED_AXIOMS)
+    with _own_driver():
+        ddcommon.run_dd(
+            ctx, ["C13"], gen_cases(ctx),
+            rule="per kind (bdd, bcdd, zbdd): 256 three-variable functions x 8 choice vectors (pick_cube + pick_cube_dd) and x 27 literal sets (pick_cube_dd_set) under one seed-chosen order (quick) / all 6 (thorough); random functions, choice vectors and literal sets over 4..7 variables under random orders; uniform sampling with fixed seeds (20000 draws per function). non-trivial = case with >= 3 ops",
+            allowed_axioms=ALLOWED_AXIOMS)
 
 
 def replay(ctx, path):
-    ddcommon.replay_dd(ctx, path)
+    with _own_driver():
+        ddcommon.replay_dd(ctx, path)
